@@ -5,6 +5,7 @@
   kernel); schema-side text is `BStr`.
 -/
 import Mtv.Schema.Matches
+import Mtv.Schema.Names
 namespace Mtv.Schema
 open Mtv.TL
 
@@ -38,6 +39,7 @@ structure WrapperFact where
   id : Nat
   flagIndex : Option Nat
   fields : List (String × GoTy × Option Flag)
+  fieldNames : List BStr              -- the field names once more, as byte strings (for the kernel)
   deriving Repr
 
 /-- is `g` the Go source type of a field of codec type `ty`? Pointers are resolved through the
@@ -132,12 +134,13 @@ def tyOfGoTy (T : Tables) : GoTy → Option Ty
   | _ => none
 
 /-- a hand-written wrapper (`InvokeWithLayerParams` ↔ `invokeWithLayer`) against its schema line:
-same id, same layout -/
+same id, same layout, fields named after the parameters -/
 def wrapperOk (T : Tables) (R : Registry) (S : List Def) (w : WrapperFact) : Bool :=
   match S.find? (fun d => d.name == w.schemaName) with
   | none => false
   | some d =>
     d.isFunc && d.id == w.id && w.flagIndex == expectedFlagIndex d.params 0 &&
+    namesMatch d.name (fieldParamNames d) w.fieldNames && w.fieldNames.length == w.fields.length &&
     (let ps := fieldParams d
      ps.length == w.fields.length &&
      (List.zip ps w.fields).all fun (p, (_, g, fl)) =>
